@@ -18,6 +18,7 @@ mod ops_stream;
 mod ops_extract;
 mod ops_writer;
 mod ops_big;
+mod ops_clones;
 mod mkzip;
 
 pub use util::*;
@@ -53,6 +54,9 @@ fn dispatch(op: &str, args: &[Arg]) -> String {
         return r;
     }
     if let Some(r) = ops_big::dispatch(op, args) {
+        return r;
+    }
+    if let Some(r) = ops_clones::dispatch(op, args) {
         return r;
     }
     "BADOP".to_string()
